@@ -135,6 +135,38 @@ theorem C16_edit_modules_excluded_partial :
 theorem C16_history_module_excluded : "fiddle/_src/history.py" ∈ Tables.excludeLocations := by
   decide
 
+/-- Code locations allowed to write a Buildable's `__arguments__` directly: the two logging
+    hooks, the two constructors of a *fresh* store (`__init_callable__`, `__unflatten__`), and
+    three passes that edit private rebuilt copies (code generation IR, printing). Everything
+    else must go through the hooks, which is what `Cfg.Closed` / `Cfg.run_closed` model. -/
+def allowedStoreWriters : List String := [
+  "fiddle/_src/config.py:_arguments_set_value",
+  "fiddle/_src/config.py:_arguments_del_value",
+  "fiddle/_src/config.py:__init_callable__",
+  "fiddle/_src/config.py:__unflatten__",
+  "fiddle/_src/codegen/auto_config/make_symbolic_references.py:traverse",
+  "fiddle/_src/codegen/newcg_symbolic_references.py:traverse",
+  "fiddle/_src/printing.py:_rearrange_buildable_args"]
+
+/-- Table obligation (regenerated from the source on every run): no other site writes the
+    argument store, so every store write is logged. -/
+theorem C16_all_writes_logged : ∀ w ∈ Tables.storeWriteSites, w ∈ allowedStoreWriters := by
+  decide
+
+/-- One change of a stored value appends exactly one entry, carrying the next sequence
+    number, for that key (plain values, tracking on). -/
+theorem C16_one_entry_per_set (c : Cfg) (k : Key) (n : Nat) (ht : c.tracking = true) :
+    (c.setValue k (.v n)).hist = c.hist ++ [⟨c.ctr, k, .val (.v n)⟩]
+      ∧ (c.setValue k (.v n)).ctr = c.ctr + 1 := by
+  simp [Cfg.setValue, Cfg.log, ht]
+
+theorem C16_one_entry_per_del (c c' : Cfg) (k : Key) (ht : c.tracking = true)
+    (h : c.delValue k = .ok c') : c'.hist = c.hist ++ [⟨c.ctr, k, .deleted⟩] := by
+  unfold Cfg.delValue at h
+  split at h
+  · cases h; simp [Cfg.log, ht]
+  · cases h
+
 /-! ### Non-vacuity -/
 
 example : TrackedInv (({ } : Cfg)) := by
